@@ -16,6 +16,9 @@ func (h *hx) clientScenarios(round int, A, B srvCfg, c0, c1 uint64) {
 	for i := 0; i < n; i++ {
 		h.clientScenario(i, A, B, c0, c1)
 	}
+	for i := 0; i < n; i++ {
+		h.e2eClientScenario(A, B, c0, c1)
+	}
 }
 
 // sigVariant builds the "sig" value a response carries.
@@ -131,7 +134,7 @@ func (h *hx) clientScenario(i int, A, B srvCfg, c0, c1 uint64) {
 			hdr = sym.BuildHeader("Basic x, "+sym.Scheme+" ", items, ", ")
 		case 2:
 			hdr = hdr + ", "
-			tag += "_trailing"
+			tag += "|trailing_separator"
 		}
 		www, info := hdr, ""
 		if inInfo {
@@ -139,13 +142,15 @@ func (h *hx) clientScenario(i int, A, B srvCfg, c0, c1 uint64) {
 		}
 		if r.Chance(1, 10) {
 			www, info = info, www
-			tag += "_wrong_header_name"
+			tag += "|wrong_header_name"
 		}
 		if r.Chance(1, 15) {
 			www, info = hdr, hdr
 		}
 		cs.step(1, www, info, items)
-		h.out.Cover("client_response_" + tag)
+		for _, part := range strings.Split(tag, "|") {
+			h.out.Cover("client_response_" + part)
+		}
 	}
 	run := func() (bool, uint64) {
 		ok, hdr := cs.step(2, "", "", nil)
@@ -176,11 +181,11 @@ func (h *hx) clientScenario(i int, A, B srvCfg, c0, c1 uint64) {
 			v, t := h.sigVariant(r.Intn(15), sk, sk2, ck, ck2, own, older, host)
 			sg, st = []sym.Item{{Name: "sig", Val: v}}, t
 		}
-		send(cat(chalC(), kv, sg, opaque()), false, "ci_"+kt+"_"+st)
+		send(cat(chalC(), kv, sg, opaque()), false, "first_"+kt+"|first_sig_"+st)
 		run()
 	} else {
 		kv, kt := h.keyVariant(r.Intn(11), sk, sk2)
-		send(cat(chalC(), kv, opaque()), false, "si_"+kt)
+		send(cat(chalC(), kv, opaque()), false, "first_"+kt)
 		run()
 	}
 	// second response: sig + bearer (server-initiated or fallback), or bearer only
@@ -195,7 +200,7 @@ func (h *hx) clientScenario(i int, A, B srvCfg, c0, c1 uint64) {
 		if r.Chance(1, 4) {
 			kv, _ = h.keyVariant(r.Intn(11), sk, sk2)
 		}
-		send(cat(sg, bearer(), kv), true, "final_"+st)
+		send(cat(sg, bearer(), kv), true, "final_sig_"+st)
 		run()
 		if r.Chance(1, 2) {
 			break
